@@ -1483,6 +1483,11 @@ func (p *parser) lowerObjectRestHelper(
 					found = true
 				}
 			}
+		case *js_ast.ESpread:
+			// "[a, ...[{b, ...c}]] = d"
+			if findRestBindings(e.Value) {
+				found = true
+			}
 		case *js_ast.EObject:
 			for _, property := range e.Properties {
 				if property.Kind == js_ast.PropertySpread || findRestBindings(property.ValueOrNil) {
@@ -1551,6 +1556,11 @@ func (p *parser) lowerObjectRestHelper(
 		binding := &split
 		if binary, ok := binding.Data.(*js_ast.EBinary); ok && binary.Op == js_ast.BinOpAssign {
 			binding = &binary.Left
+		}
+
+		// If this is a rest element, target the binding inside of it
+		if spread, ok := binding.Data.(*js_ast.ESpread); ok {
+			binding = &spread.Value
 		}
 
 		// Swap the binding with a temporary
